@@ -96,12 +96,22 @@ func Range(it MessageIterator, f func(*Schema, *Channel, *Message) error) error 
 // seekLexer moves the stream to offset and detaches the reader's lexer from whatever chunk an
 // earlier, unfinished sequential read left it in, so that the next record is lexed from there.
 func (r *Reader) seekLexer(offset int64) error {
+	r.detachLexer()
 	if _, err := r.rs.Seek(offset, io.SeekStart); err != nil {
 		return err
 	}
+	return nil
+}
+
+// detachLexer takes the reader's lexer out of whatever chunk an unfinished sequential read left it
+// in. The zstd stream decoder reads ahead from the source on goroutines of its own: they have to be
+// stopped before anything else moves or reads the shared source.
+func (r *Reader) detachLexer() {
+	if r.l.inChunk && r.l.decoders.zstd != nil && r.l.reader == io.Reader(r.l.decoders.zstd) {
+		_ = r.l.decoders.zstd.Reset(nil)
+	}
 	r.l.inChunk = false
 	r.l.reader = r.l.basereader
-	return nil
 }
 
 func (r *Reader) unindexedIterator(opts *ReadOptions) *unindexedMessageIterator {
@@ -157,6 +167,11 @@ func (r *Reader) Messages(
 		}
 	}
 	options.Finalize()
+	if r.rs != nil {
+		// every kind of read repositions a seekable source (for the summary, for chunks, or to
+		// the start of the data): an earlier, unfinished sequential read must be off it first.
+		r.detachLexer()
+	}
 	if options.UseIndex {
 		if rs, ok := r.r.(io.ReadSeeker); ok {
 			r.rs = rs
@@ -211,6 +226,7 @@ func (r *Reader) Info() (*Info, error) {
 	if r.rs == nil {
 		return nil, fmt.Errorf("cannot get info from non-seekable reader")
 	}
+	r.detachLexer()
 	it := r.indexedMessageIterator(&ReadOptions{
 		UseIndex: true,
 	})
@@ -238,6 +254,7 @@ func (r *Reader) GetAttachmentReader(offset uint64) (*AttachmentReader, error) {
 	if r.rs == nil {
 		return nil, fmt.Errorf("cannot get an attachment at an offset from a non-seekable reader")
 	}
+	r.detachLexer()
 	_, err := r.rs.Seek(int64(offset+9), io.SeekStart)
 	if err != nil {
 		return nil, err
